@@ -262,6 +262,63 @@ def r_wake(e, R, which=None):
 
 
 # ---------------------------------------------------------------------------
+# R-WAKE-CLEAR
+# ---------------------------------------------------------------------------
+
+def r_wake_clear(e, R):
+    """Draining the wake-up pipe must happen BEFORE the manager re-reads the
+    state a wake-up can announce: on every path from a drain to the next
+    blocking wait the loop must pass through the work-id read and through the
+    shutting-down predicate.  Otherwise a wake-up sent after those reads but
+    before the drain is swallowed and the manager blocks forever."""
+    a = e.anchors
+    run = a.manager_run
+    g = e.cfg(run)
+    clear_q = a.wake_clear_method.qualname
+    wait_ids = {id(c) for _, c in a.wait_calls}
+
+    def is_wait(f, c):
+        return id(c) in wait_ids
+    clear = calls_method_of(e, [clear_q])
+    cn = effect_nodes(e, run, clear)
+    wn = effect_nodes(e, run, is_wait)
+    if not wn:
+        raise AnalysisError("manager loop: blocking wait not reachable")
+    R.check(bool(cn), "R-WAKE-CLEAR", "manager loop drains the wake-up pipe", run.short, "thread_wakeup.clear()",
+            "the wake-up pipe is never drained: once woken the manager spins", e.loc(run, run.node))
+    # inside a callee that both waits and drains, the drain must follow the wait
+    both = cn & wn
+    for n in both:
+        for c in calls_in(n):
+            for q in e.callees_of(c):
+                cf = e.prog.funcs[q]
+                cg = e.cfg(cf)
+                cw = effect_nodes(e, cf, is_wait)
+                cc = effect_nodes(e, cf, clear)
+                if cw and cc:
+                    ok = all(any(cg.dominates(w_, x) for w_ in cw) for x in cc) and not any(cg.path_exists(x, lambda m: m in cw, use_exc=False) for x in cc)
+                    R.check(ok, "R-WAKE-CLEAR", f"{cf.short}: the drain follows the wait it belongs to", cf.short, "wait(...) ... clear()",
+                            "the wake-up pipe is drained before waiting: every pending wake-up is discarded right before blocking", e.loc(cf, cf.node))
+    # readers of wake-announced state
+    reads_ids = effect_nodes(e, run, recv_call(e, ("get", "get_nowait"), a.work_ids))
+    from .shutdown import shutting_down_func
+    sdf, _ = shutting_down_func(e)
+    reads_sd = {n for n in g.nodes if any(sdf.qualname in e.callees_of(c) for c in calls_in(n))}
+    for what, S in (("the work-id queue is read", reads_ids), ("the shutting-down predicate is evaluated", reads_sd)):
+        if not S:
+            raise AnalysisError(f"manager loop: no node where {what}")
+        for c_ in cn:
+            esc = g.find_path(c_, lambda n: n in wn, avoid=S, use_exc=False)
+            # a node that waits-then-drains restarts the obligation at itself
+            R.check(esc is None, "R-WAKE-CLEAR", f"between a drain and the next wait, {what}", run.short,
+                    norm(c_.ast)[:70] if c_.ast is not None else "clear",
+                    f"a path goes from draining the wake-up pipe to the next blocking wait without a point where {what}: a wake-up sent "
+                    "after that state was last examined is swallowed by the drain and the manager blocks forever (submit/shutdown hang)",
+                    e.loc(run, c_.ast), g.fmt_path(esc) if esc else None)
+    R.floor("R-WAKE-CLEAR", 3)
+
+
+# ---------------------------------------------------------------------------
 # R-OWN-RESOLVE / R-DROP-RESOLVES
 # ---------------------------------------------------------------------------
 
